@@ -10,7 +10,7 @@ FUNCTIONS = ["LRUTrie.add_lru", "LRUTrie.__ensure_stem_from_siblings", "LRUTrie.
 REQUIRED = ["lookup:locatable", "lookup:windup", "dfs:count", "raw:bst-order", "raw:parent-pointer", "raw:unreferenced-block",
             "reach:absent-prefix", "reach:long-stem", "reach:op:page", "reach:op:links", "reach:op:we", "reach:op:rule"]
 OUTSIDE = ["long stems in the `sparse` levels have symbolic bytes only next to the 74-byte block boundaries and at both ends; the other bytes are a concrete position-dependent filler (fully symbolic long stems: thorough level long-full-n1)",
-           "stems longer than 223 bytes", "more than 4 pool LRUs / 3 write requests", "LRUs of more than 3 stems"]
+           "stems longer than 297 bytes", "more than 4 pool LRUs / 3 write requests", "LRUs of more than 3 stems"]
 
 
 def levels(tier):
@@ -23,7 +23,7 @@ def levels(tier):
         return [
             {"name": "short-n1", "pools": [short], "absent": [1, 1], "n": 1, "alphabet": alpha, "backends": ["memory", "file"], "links_batch": 2},
             {"name": "short-n2", "pools": [short], "absent": [1], "n": 2, "alphabet": ["page", "links", "we"], "backends": ["memory"], "links_batch": 1},
-            {"name": "long-n1", "pools": longs[:3], "sparse": True, "absent": [74, 1], "n": 1, "alphabet": alpha,
+            {"name": "long-n1", "pools": longs[:3] + [[[221], [1], [295, 1]]], "sparse": True, "absent": [74, 1], "n": 1, "alphabet": alpha,
              "backends": ["file", "memory"], "links_batch": 2},
             {"name": "mixed-n1", "pools": [[[1], [2, 1], [1, 2]], [[2], [1, 1], [2, 2]]], "absent": [2], "n": 1, "alphabet": alpha,
              "backends": ["memory"], "links_batch": 2},
